@@ -131,8 +131,14 @@ fn f_len2<'a>(args: FunctionArgs<'_, 'a>) -> Option<LhsValue<'a>> {
     Some(LhsValue::Int(a + b))
 }
 
-pub const SIMPLE_NAMES: [&str; 11] =
-    ["echo", "lower", "len", "first", "opt2", "dropempty", "alen", "addlit", "b2i", "blen", "len2"];
+/// `nil0()`: no parameters at all, returns `true`
+fn f_nil0<'a>(args: FunctionArgs<'_, 'a>) -> Option<LhsValue<'a>> {
+    assert!(args.next().is_none(), "nil0: too many args");
+    Some(LhsValue::Bool(true))
+}
+
+pub const SIMPLE_NAMES: [&str; 12] =
+    ["echo", "lower", "len", "first", "opt2", "dropempty", "alen", "addlit", "b2i", "blen", "len2", "nil0"];
 
 pub fn simple(fname: &str) -> Option<SimpleFunctionDefinition> {
     let bytes_arr = Type::Array(Type::Bytes.into());
@@ -165,6 +171,7 @@ pub fn simple(fname: &str) -> Option<SimpleFunctionDefinition> {
             ),
             "b2i" => (vec![p(K::Field, Type::Bool)], vec![], Type::Int, f_b2i),
             "blen" => (vec![p(K::Field, bool_arr)], vec![], Type::Int, f_alen),
+            "nil0" => (vec![], vec![], Type::Bool, f_nil0),
             "len2" => (
                 vec![p(K::Field, Type::Bytes)],
                 vec![SimpleFunctionOptParam { arg_kind: K::Both, default_value: LhsValue::Bytes(Vec::new().into()) }],
